@@ -167,7 +167,7 @@ def runfor_part(ck, tier):
             return np.zeros((0, 1))
 
     maxlen = 2 if tier == "quick" else 3
-    r = run_tlc("RunForGen", cfg_text=("INIT Init\nNEXT Next\nCONSTANTS Classes = {1, 2, 3, 4, 5} MaxLen = %d Budgets = {1, 300}\n"
+    r = run_tlc("RunForGen", cfg_text=("INIT Init\nNEXT Next\nCONSTANTS Classes = {1, 2, 3, 4, 5} MaxLen = %d Budgets = {0, 1, 300}\n"
                                        "CHECK_DEADLOCK FALSE\n" % maxlen), workers=1)
     must_pass(r, "RunForGen")
     ck.tlc(r, "runfor_schedules")
@@ -261,6 +261,7 @@ def runfor_part(ck, tier):
                     last = e["t"]
                     if deadline is None:
                         deadline = e["t"] + budget
+                        over = over or budget == 0
                     else:
                         if e["t"] >= deadline:
                             over = True
